@@ -67,6 +67,10 @@ type Model struct {
 
 // ExecScript is the shell script of a body with Exec = n: n lines, odd ones to stderr.
 func ExecScript(n int) string {
+	if n > 64 {
+		// many lines, written as fast as a shell loop can: the two streams are busy at the same time
+		return fmt.Sprintf("i=0; while [ $i -lt %d ]; do echo child line $i; i=$((i+1)); if [ $i -lt %d ]; then echo child line $i >&2; i=$((i+1)); fi; done", n, n)
+	}
 	var b strings.Builder
 	for i := 0; i < n; i++ {
 		if i%2 == 1 {
